@@ -8,14 +8,14 @@
 EXTENDS CacheP, TLC, Json, IOUtils
 
 Trace == ndJsonDeserialize(IOEnv.TRACE)
-VARIABLES l, pend
-vars == <<pvars, l, pend>>
+VARIABLES l, pend, st       \* st: what a StatsRecorder around the cache has counted (Gets, Misses, Puts, Retains, Evictions)
+vars == <<pvars, l, pend, st>>
 Ev == Trace[l]
 G == 1..4
 None == [op |-> "none"]
 IsEv(e) == l <= Len(Trace) /\ Ev.ev = e /\ l' = l + 1
 
-Init == /\ l = 1 /\ pend = [g \in G |-> None]
+Init == /\ l = 1 /\ pend = [g \in G |-> None] /\ st = <<0, 0, 0, 0, 0>>
         /\ cap = 1 /\ held = {} /\ ageq = <<>> /\ key = [x \in Ids |-> NIL]
         /\ blk = [x \in Ids |-> [base |-> 0, used |-> FALSE]]
         /\ est = [x \in Ids |-> "fresh"] /\ last = [op |-> "init"]
@@ -27,11 +27,11 @@ Reset == /\ IsEv("T") /\ Ev.policy = Policy
                                   THEN [base |-> Ev.blocks[x][1], used |-> Ev.blocks[x][2]]
                                   ELSE [base |-> 0, used |-> FALSE]]
          /\ est' = [x \in Ids |-> "fresh"] /\ last' = [op |-> "init"]
-         /\ pend' = [g \in G |-> None]
+         /\ pend' = [g \in G |-> None] /\ st' = <<0, 0, 0, 0, 0>>
 
 Call == /\ IsEv("call") /\ pend[Ev.g] = None
         /\ pend' = [pend EXCEPT ![Ev.g] = [op |-> Ev.op, ev |-> Ev, applied |-> FALSE, res |-> None]]
-        /\ UNCHANGED pvars
+        /\ UNCHANGED <<pvars, st>>
 
 \* the atomic effect of g's pending operation
 Lin(g) == /\ pend[g] # None /\ ~pend[g].applied
@@ -39,17 +39,24 @@ Lin(g) == /\ pend[g] # None /\ ~pend[g].applied
           /\ LET c == pend[g].ev
              IN \/ /\ c.op = "put" /\ Put(c.id)
                    /\ pend' = [pend EXCEPT ![g].applied = TRUE, ![g].res = last']
+                   \* the recorder counts the operation in the same atomic step as its effect
+                   /\ st' = [st EXCEPT ![3] = @ + 1,
+                                       ![4] = @ + (IF last'.ret THEN 1 ELSE 0),
+                                       ![5] = @ + (IF last'.ret /\ last'.ev # NIL THEN 1 ELSE 0)]
                 \/ /\ c.op = "get" /\ Get(c.base)
                    /\ pend' = [pend EXCEPT ![g].applied = TRUE, ![g].res = last']
-                \/ /\ c.op = "drop" /\ Drop(c.n)
+                   /\ st' = [st EXCEPT ![1] = @ + 1, ![2] = @ + (IF last'.r = NIL THEN 1 ELSE 0)]
+                \/ /\ c.op = "drop" /\ Drop(c.n) /\ UNCHANGED st
                    /\ pend' = [pend EXCEPT ![g].applied = TRUE, ![g].res = last']
-                \/ /\ c.op = "resize" /\ Resize(c.n)
+                \/ /\ c.op = "resize" /\ Resize(c.n) /\ UNCHANGED st
                    /\ pend' = [pend EXCEPT ![g].applied = TRUE, ![g].res = last']
-                \/ /\ c.op = "peek" /\ UNCHANGED pvars
+                \/ /\ c.op = "peek" /\ UNCHANGED <<pvars, st>>
                    /\ pend' = [pend EXCEPT ![g].applied = TRUE,
                                            ![g].res = [op |-> "peek", ids |-> Mapped(c.base)]]
-                \/ /\ c.op = "len" /\ UNCHANGED pvars
+                \/ /\ c.op = "len" /\ UNCHANGED <<pvars, st>>
                    /\ pend' = [pend EXCEPT ![g].applied = TRUE, ![g].res = [op |-> "len", n |-> Len_]]
+                \/ /\ c.op = "stats" /\ UNCHANGED <<pvars, st>>
+                   /\ pend' = [pend EXCEPT ![g].applied = TRUE, ![g].res = [op |-> "stats", st |-> st]]
 
 Ret == /\ IsEv("ret") /\ pend[Ev.g] # None /\ pend[Ev.g].applied /\ pend[Ev.g].op = Ev.op
        /\ LET r == pend[Ev.g].res
@@ -57,23 +64,25 @@ Ret == /\ IsEv("ret") /\ pend[Ev.g] # None /\ pend[Ev.g].applied /\ pend[Ev.g].o
                [] Ev.op = "get" -> r.r = Ev.r /\ (Ev.r # NIL => Ev.rbase = r.base)
                [] Ev.op = "peek" -> Ev.exists = (r.ids # {}) /\ (Ev.exists => Ev.id \in r.ids)
                [] Ev.op = "len" -> Ev.n = r.n
+               [] Ev.op = "stats" -> Ev.stats = r.st
                [] OTHER -> TRUE
        /\ pend' = [pend EXCEPT ![Ev.g] = None]
-       /\ UNCHANGED pvars
+       /\ UNCHANGED <<pvars, st>>
 
 \* the environment recycles a block that a Put handed back (as the reader does), between two operations
-Ow == /\ IsEv("overwrite") /\ Overwrite(Ev.id, Ev.base, Ev.used) /\ UNCHANGED pend
+Ow == /\ IsEv("overwrite") /\ Overwrite(Ev.id, Ev.base, Ev.used) /\ UNCHANGED <<pend, st>>
 
 Final == /\ IsEv("final") /\ \A g \in G : pend[g] = None
          /\ Ev.len = Len_ /\ Ev.cap = cap /\ Len_ <= cap
          /\ \A i \in DOMAIN Ev.peek :
               /\ Ev.peek[i][2] = (Mapped(Ev.peek[i][1]) # {})
               /\ Ev.peek[i][2] => Ev.peek[i][3] \in Mapped(Ev.peek[i][1])
-         /\ UNCHANGED <<pvars, pend>>
+         /\ ("stats" \in DOMAIN Ev => Ev.stats = st)
+         /\ UNCHANGED <<pvars, pend, st>>
 
 Done == /\ l = Len(Trace) + 1
         /\ PrintT("VERIF-DONE " \o ToJson([lines |-> Len(Trace), rej |-> <<>>]))
-        /\ l' = l + 1 /\ UNCHANGED <<pvars, pend>>
+        /\ l' = l + 1 /\ UNCHANGED <<pvars, pend, st>>
 Next == Reset \/ Call \/ Ret \/ Ow \/ Final \/ Done \/ \E g \in G : Lin(g)
 Spec == Init /\ [][Next]_vars
 
